@@ -8,6 +8,7 @@ mod c01;
 mod c02;
 mod c03;
 mod c04;
+mod c05;
 mod c06;
 
 use common::*;
@@ -31,6 +32,7 @@ fn main() {
     "C02" => c02::run(&ctx),
     "C03" => c03::run(&ctx),
     "C04" => c04::run(&ctx),
+    "C05" => c05::run(&ctx),
     "C06" => c06::run(&ctx),
     _ => {
       eprintln!("unknown property {}", prop);
